@@ -148,6 +148,7 @@ def install(e):
     install_frame(e)
     install_transport(e)
     install_data(e)
+    install_recv(e)
 
 
 def _install_strict(e):
@@ -661,3 +662,70 @@ def install_data(e):
                        "before the next read.  Returns the completed message (first fragment's opcode, in-order concatenation; valid UTF-8 for "
                        "text unless validation is off), or each data frame individually when fire_cont_frame is set, or the control frame; "
                        "a close frame is answered by exactly one close frame (1000) and clears `connected`"))
+
+
+def install_recv(e):
+    """WebSocket.recv (C02, C04, C06, C12, C17)."""
+    from .core import mk_ws, lock_ok, TRANSPORT_EXC
+    K = "websocket._core:"
+    rdf = e.contracts[K + "WebSocket.recv_data_frame"]
+
+    def recv_case(fire):
+        def case(c):
+            ws = mk_ws(c, fire=fire, recv_state="any", dispatcher=None)
+            ghost_msg(c)
+            c.ghost["pong_acc"] = SV("bytes", smt.empty)
+            c.ghost["npings"] = 0
+            return dict(self=ws)
+        return case
+
+    def recv_post(c, old, a, res):
+        ws = a["self"]
+        cf = c.getf(ws, "cont_frame")
+        fire = c.getf(cf, "fire_cont_frame")
+        d = spec.Dec(z(c.ghost["rx"]), z(c.ghost["lastf"]))
+        mop, md = z(c.ghost["m_op"]), z(c.ghost["m_data"])
+        op = d.opcode if fire is True else z3.If(z3.Or(d.opcode == 0, d.opcode == 1, d.opcode == 2), mop, d.opcode)
+        data = d.payload if fire is True else z3.If(z3.Or(d.opcode == 0, d.opcode == 1, d.opcode == 2), md, d.payload)
+        tg = tag_of(res)
+        if tg == "str" and isinstance(res, SV):
+            return z3.And(op == 1, z(res) == smt.utf8_dec(data), smt.wf_utf8(data))
+        if tg == "bytes":
+            return z3.And(op == 2, c.eq(z(res), data))
+        if tg == "str":
+            return z3.And(z3.BoolVal(res == ""), op != 1, op != 2)
+        return z3.BoolVal(False)
+
+    def recv_payload(c, old, a, exc):
+        # a text message whose bytes are not well-formed UTF-8 (also with validation off / per-fragment delivery,
+        # where the decode in recv() is the first check)
+        ws = a["self"]
+        cf = c.getf(ws, "cont_frame")
+        fire = c.getf(cf, "fire_cont_frame")
+        d = spec.Dec(z(c.ghost["rx"]), z(c.ghost["lastf"]))
+        mop, md = z(c.ghost["m_op"]), z(c.ghost["m_data"])
+        if fire is True:
+            bad = z3.And(d.opcode == 1, z3.Not(smt.wf_utf8(d.payload)))
+        else:
+            bad = z3.And(mop == 1, z3.Not(smt.wf_utf8(md)))
+        return z3.And(FB(c, c.getf(ws, "frame_buffer")), CF(c, cf), bad)
+
+    def recv_req(c, a):
+        ws = a["self"]
+        return z3.And(FB(c, c.getf(ws, "frame_buffer")), CF(c, c.getf(ws, "cont_frame")))
+    # the read lock must be held around the message-level read when entered through recv() (C12)
+    base_req = rdf.requires
+
+    def rdf_req_locked(c, a):
+        r = base_req(c, a)
+        if any(f.qual == "WebSocket.recv" for f in c.frames):
+            return z3.And(r, z3.BoolVal(lock_ok(c, a["self"], "readlock")))
+        return r
+    rdf.requires = rdf_req_locked
+    e.add(Contract(K + "WebSocket.recv", cases=[("deliver-messages", recv_case(False)), ("fire-cont-frame", recv_case(True))],
+                   requires=recv_req, ensures=recv_post,
+                   result=lambda c, a: c.fresh(("oneof", ["str", "bytes", ("const", "")]), "received"),
+                   raises=[(cls, w, (recv_payload if cls is X.WebSocketPayloadException else p)) for (cls, w, p) in rdf.raises],
+                   modifies=rdf.modifies, havoc=rdf.havoc, props=("C02", "C04", "C06", "C12", "C17"),
+                   doc="under the read lock: text message -> its UTF-8 decoding (str), binary -> the bytes, anything else -> ''; "
+                       "only the documented exception classes (no UnicodeDecodeError)"))
